@@ -27,6 +27,15 @@ instance {α β : Type} [JCodec α] [JCodec β] : JCodec (α × β) :=
       | _ => throw "pair expected",
    fun p => Json.arr #[JCodec.enc p.1, JCodec.enc p.2]⟩
 
+/-- `null` ↔ `none` (NaN of the complex / float values `Cx`) -/
+instance {α : Type} [JCodec α] : JCodec (Option α) :=
+  ⟨fun j => match j with
+      | Json.null => pure none
+      | _ => do return some (← JCodec.dec j),
+   fun o => match o with
+      | none => Json.null
+      | some a => JCodec.enc a⟩
+
 def encPy {α : Type} [JCodec α] : Py α → Json
   | .ok a => Json.mkObj [("ok", JCodec.enc a)]
   | .error e => Json.mkObj [("err", Json.str e.name)]
@@ -104,6 +113,34 @@ def oracleTableInt {β : Type} [JCodec β] (key : String) (r : Req) : Int → Py
       | none => .error (oracleErr key r)
     | .error _ => .error .other
   | .error _ => .error (oracleErr key r)
+
+/-- stand-in for an oracle of one argument of any decodable type that is called several times: `"oracle": {key: [[arg, answer], …]}`,
+looked up by equality of the argument -/
+def oracleTableKey {α β : Type} [JCodec α] [BEq α] [JCodec β] (key : String) (r : Req) : α → Py β := fun x =>
+  match r.oracle.getObjVal? key with
+  | .ok j =>
+    match (JCodec.dec j : Except String (List (α × β))) with
+    | .ok tbl =>
+      match tbl.find? (fun p => p.1 == x) with
+      | some p => .ok p.2
+      | none => .error (oracleErr key r)
+    | .error _ => .error .other
+  | .error _ => .error (oracleErr key r)
+
+/-- stand-in for an ELEMENT-WISE oracle on arrays of optional values (`np.log` on complex doubles with NaN): `"oracle": {key: [[z, f z], …]}`;
+NaN is mapped to NaN, a value that is not in the table is an error -/
+def oracleElemwise {α : Type} [JCodec α] [BEq α] (key : String) (r : Req) : List (Option α) → Py (List (Option α)) := fun xs =>
+  match r.oracle.getObjVal? key with
+  | .ok j =>
+    match (JCodec.dec j : Except String (List (α × Option α))) with
+    | .ok tbl =>
+      xs.mapM (fun x => match x with
+        | none => .ok none
+        | some z => match tbl.find? (fun p => p.1 == z) with
+          | some p => .ok p.2
+          | none => .error .other)
+    | .error _ => .error .other
+  | .error _ => .error .other
 
 /-- stand-in for the chain kernel that ECHOES what it was called with (so that the arguments built by the translated wrapper are
 compared with what the real wrapper passed): `[start, steps] ++ ⌊1024·cummat⌋ (row-major) ++ perm (row-major)` -/
